@@ -59,6 +59,10 @@ def library():
     add("frontmatter", "disable_paragraph", ["---", "myst:", "  disable_syntax: [paragraph]", "---", "", "plain", "", "# H"], toponly=True)
     add("frontmatter", "disable_rules", ["---", "myst:", "  disable_syntax: [text, heading, lheading, fence, code, list, blockquote, hr, reference, html_block, escape, entity, nosuchrule]",
                                          "---", "", "plain `c` *e*", "", "# H", "", "- l", "", "> q", "", "    code", "", "***", "", "[r]: x", "", "<div>", "", "T", "==="], toponly=True, silent=True)
+    # title_to_header with a title YAML does not type as a string
+    for nm, tv in (("title_int", "2024"), ("title_float", "1.5"), ("title_date", "2024-05-01"), ("title_bool", "yes"), ("title_list", "[a, b]"),
+                   ("title_map", "{a: b}"), ("title_multiline", "|\n  two\n  lines")):
+        add("frontmatter", nm, ["---", f"title: {tv}", "myst:", "  title_to_header: true", "---", "", "text", "", "# H"], toponly=True, silent=True)
     add("frontmatter", "datekey_nested", ["---", "a:", "  2020-01-01: x", "b: 1", "---", "", "# H"], toponly=True)
     add("frontmatter", "datelist", ["---", "a: [2020-01-01]", "b: {c: 2020-01-01}", "---"], toponly=True, silent=True)
     add("frontmatter", "unclosed", ["---", "a: 1", "", "text"], toponly=True, silent=True)
